@@ -1271,8 +1271,11 @@ func (e *Env) notePrefixApp(sf *SpecFunc, args []tval, cs []string, term string)
 	if vc.prefixApps == nil {
 		vc.prefixApps = map[string][]prefixApp{}
 	}
+	// a contract that reasons about sequences through concatenation (seqCat) does not need the element-wise
+	// route, whose instances are quadratic in the number of slices met
+	skipExt := sf.Name == "seqOf" && e.fr != nil && e.fr.conMentions("seqCat")
 	for _, o := range vc.prefixApps[sf.Name] {
-		if o.term == term || o.rest != pa.rest || o.w != pa.w {
+		if skipExt || o.term == term || o.rest != pa.rest || o.w != pa.w {
 			continue
 		}
 		if isNumLit(o.bound) && isNumLit(pa.bound) && o.bound != pa.bound {
